@@ -10,7 +10,7 @@ use serde_json::{json, Value};
 pub static ENGINE: Engine = Engine {
     prop: "C12",
     level: "exploration",
-    rule: "every sentence of the grammar with <= 3 (4) syntax nodes over the full alphabet plus the every-node-kind-in-every-position family (parsed, evaluated, printed lookups); every byte string <= 2 (3) bytes over all 256 byte values; every sequence <= 4 (5) of lexemes over the 33 token kinds plus extreme lexemes (numbers around 2^63/2^64, 40 digits, non-ASCII digits, unbalanced quote/brace, NUL); flat inputs of every length 2^j, 2^j+-1 up to 64 KiB; every nesting depth 1..200 of 7 nesting constructs; each through tokenize, ParsedFormula::new and (when the reference says all fixed points converge) eval under catch_unwind. CLI: a formula core x every combination of {-t,-v,-m,-r,-d,-p} x {-c none/t/f} x {-f none/t/f} x {no ordering, reversed, superset, formula-as-ordering}, plus -b 0 / -b 2 x {-t,-v,-m,-r}; and/or chains over 8..257 variables and names of 24..1000 characters with the printing options; exit 101 / signal = violation. distinct = distinct (outcome class, token-list) pairs in-process + distinct (exit status, stdout) pairs for the CLI",
+    rule: "every sentence of the grammar with <= 3 (4) syntax nodes over the full alphabet plus the every-node-kind-in-every-position family and every sentence <= 5 (6) nodes with an undefined {reference} leaf over a binder alphabet (parsed, evaluated, printed lookups); -b N for every N in 0..80; every byte string <= 2 (3) bytes over all 256 byte values; every sequence <= 4 (5) of lexemes over the 33 token kinds plus extreme lexemes (numbers around 2^63/2^64, 40 digits, non-ASCII digits, unbalanced quote/brace, NUL); flat inputs of every length 2^j, 2^j+-1 up to 64 KiB; every nesting depth 1..200 of 7 nesting constructs; each through tokenize, ParsedFormula::new and (when the reference says all fixed points converge) eval under catch_unwind. CLI: a formula core x every combination of {-t,-v,-m,-r,-d,-p} x {-c none/t/f} x {-f none/t/f} x {no ordering, reversed, superset, formula-as-ordering}, plus -b 0 / -b 2 x {-t,-v,-m,-r}; and/or chains over 8..257 variables and names of 24..1000 characters with the printing options; exit 101 / signal = violation. distinct = distinct (outcome class, token-list) pairs in-process + distinct (exit status, stdout) pairs for the CLI",
     assumptions: &[
         "resource exhaustion on inputs whose evaluation is exponential by design is outside the claim",
         "fixed points the reference model finds divergent are not evaluated; exhaustion of the 20000-iteration fuel is reported by C01/C06, not here",
@@ -439,6 +439,20 @@ fn cli_sweep(ctx: &mut Ctx) {
             }
         }
     }
+    // every benchmark repetition count 0..=80 and around the larger powers of two
+    for f in ["(a & -b) | c", "true"] {
+        for n in (0..=80usize).chain([99, 100, 101, 127, 128, 129, 255, 256, 257, 1000]) {
+            for opts in [vec!["-t"], vec!["-v", "-r"]] {
+                idx += 1;
+                if ctx.mine(idx) {
+                    let mut o: Vec<String> = opts.iter().map(|x| x.to_string()).collect();
+                    o.extend(["-b".to_string(), n.to_string()]);
+                    let o2: Vec<&str> = o.iter().map(|x| x.as_str()).collect();
+                    check_cli(ctx, &Inv::new(f, &o2));
+                }
+            }
+        }
+    }
     // every lexeme soup of <= 2 (3) lexemes as formula and as ordering file, table + vars + dot
     let lex = extreme_lexemes();
     let maxlen = if ctx.thorough() { 3 } else { 2 };
@@ -532,6 +546,34 @@ fn sentence_sweep(ctx: &mut Ctx) {
         if ctx.mine(idx) {
             check_bytes(ctx, refl::pp(&a, refl::MINIMAL).as_bytes(), true);
             ctx.count("grammar_sentences", 1);
+        }
+    }
+    // sentences with `{reference}` leaves (never defined on this path) in every position,
+    // in particular under binders and inside fixed-point bodies and counting lists
+    let refs = crate::enumerate::Alpha {
+        leaves: vec![Ast::var("a"), Ast::var("X"), Ast::Ref("r".into())],
+        not: true,
+        bins: vec![refl::Bin::And, refl::Bin::Implies],
+        ite: true,
+        quants: vec![(true, vec!["a".to_string()])],
+        fps: vec![("X".to_string(), false), ("X".to_string(), true)],
+        cmps: vec![refl::Cmp::AtLeast],
+        nums: vec!["1".to_string()],
+        cv: true,
+        max_list: 2,
+    };
+    let mut g = crate::enumerate::Gen::new(refs);
+    for n in 1..=(if ctx.thorough() { 6 } else { 5 }) {
+        let mut todo: Vec<Ast> = vec![];
+        g.stream(n, &mut |a| {
+            idx += 1;
+            if ctx.mine(idx) && a.has_ref() {
+                todo.push(a);
+            }
+        });
+        for a in todo {
+            check_bytes(ctx, refl::pp(&a, refl::MINIMAL).as_bytes(), true);
+            ctx.count("reference_sentences", 1);
         }
     }
 }
